@@ -10,6 +10,7 @@ import (
 	"sort"
 	"strings"
 	"sync"
+	"sync/atomic"
 
 	"verif/ev"
 	"verif/rig"
@@ -76,7 +77,7 @@ func main() {
 	if run.Thorough() {
 		cfgs = []cfg{{1, 3, 2, 1, 100000}, {2, 2, 1, 1, 3000}, {2, 3, 2, 1, 400}, {3, 1, 1, 1, 300}, {3, 2, 1, 0, 60}}
 	} else {
-		cfgs = []cfg{{1, 3, 2, 1, 100000}, {2, 2, 1, 1, 60}, {3, 1, 1, 0, 12}}
+		cfgs = []cfg{{1, 3, 2, 1, 100000}, {2, 2, 1, 1, 300}, {3, 1, 1, 0, 40}}
 	}
 	nats, err := rig.StartNats()
 	if err != nil {
@@ -126,6 +127,7 @@ func main() {
 	run.Set("plans_sampled", sampledPlans)
 
 	var mu sync.Mutex
+	var stallsSeen int32
 	stalls := 0
 	hookEvents := 0
 	results := make(chan *rig.MuxResult, 64)
@@ -137,6 +139,9 @@ func main() {
 		go func() {
 			defer wg.Done()
 			for j := range jobc {
+				if atomic.LoadInt32(&stallsSeen) >= 8 {
+					continue // a stalling reader (C06's verdict) makes every further schedule cost seconds
+				}
 				var leg rig.MuxLeg
 				if j.leg == "adapter" {
 					leg = rig.NewAdapterLeg()
@@ -145,6 +150,9 @@ func main() {
 				}
 				r := rig.ExecuteSchedule(leg, j.plan, j.sched)
 				r.Leg = j.leg + " | " + planString(j.plan)
+				if r.Stalled != "" {
+					atomic.AddInt32(&stallsSeen, 1)
+				}
 				results <- r
 			}
 		}()
@@ -180,7 +188,7 @@ func main() {
 			}
 		}
 	}
-	run.Set("schedules_executed", len(jobs))
+	run.Set("schedules_planned", len(jobs))
 	run.Set("schedules_cut_short_by_a_reader_stall_(see_C06)", stalls)
 	run.Set("hook_events_observed", hookEvents)
 
